@@ -906,7 +906,7 @@ fn deser_bytes(target: Target, bytes: &[u8], ctx: &dyn Fn() -> String) -> Result
         Target::Glyph => serde_json::from_slice::<Glyph>(bytes).map(Loaded::Glyph).map_err(|e| e.to_string()),
         Target::Text => serde_json::from_slice::<Text>(bytes).map(Loaded::Text).map_err(|e| e.to_string()),
         Target::View => {
-            let seed = ViewDeserializer::new(None, None);
+            let seed = ViewDeserializer::new(None, Some(std::sync::Arc::new(crate::mockterm::FlipCache::new())));
             let mut de = serde_json::Deserializer::from_slice(bytes);
             (&seed).deserialize(&mut de).map(Loaded::View).map_err(|e| e.to_string())
         }
@@ -923,7 +923,7 @@ fn deser_value(target: Target, value: Value, ctx: &dyn Fn() -> String) -> Result
         Target::Glyph => serde_json::from_value::<Glyph>(value).map(Loaded::Glyph).map_err(|e| e.to_string()),
         Target::Text => serde_json::from_value::<Text>(value).map(Loaded::Text).map_err(|e| e.to_string()),
         Target::View => {
-            let seed = ViewDeserializer::new(None, None);
+            let seed = ViewDeserializer::new(None, Some(std::sync::Arc::new(crate::mockterm::FlipCache::new())));
             (&seed).deserialize(value).map(Loaded::View).map_err(|e| e.to_string())
         }
     })?;
@@ -1535,7 +1535,42 @@ fn image_case() -> BoxedStrategy<Case> {
             })
         },
     );
-    prop_oneof![3 => plain, 2 => strided].boxed()
+    // pictures whose pixels share a property a serialiser might exploit (all grey, all
+    // opaque, all transparent, one colour): "any size and content"
+    let classed = (dim(), dim(), 0u8..6).prop_flat_map(|(h, w, class)| {
+        let px = move || -> BoxedStrategy<[u8; 4]> {
+            match class {
+                0 => (any::<u8>(), any::<u8>()).prop_map(|(v, a)| [v, v, v, a]).boxed(),
+                1 => any::<u8>().prop_map(|v| [v, v, v, 255]).boxed(),
+                2 => (any::<u8>(), prop_oneof![Just(0u8), Just(1u8), Just(254u8), any::<u8>()]).prop_map(|(v, a)| [v, v, v, a]).boxed(),
+                3 => any::<[u8; 3]>().prop_map(|c| [c[0], c[1], c[2], 0]).boxed(),
+                4 => any::<[u8; 3]>().prop_map(|c| [c[0], c[1], c[2], 255]).boxed(),
+                _ => Just([0u8, 0, 0, 0]).boxed(),
+            }
+        };
+        let crop = prop_oneof![
+            2 => Just(None),
+            1 => (0..=h, 0..=h, 0..=w, 0..=w).prop_map(|(a, b, c, d)| Some((a.min(b), a.max(b), c.min(d), c.max(d)))),
+        ];
+        (pvec(px(), h * w), crop, any::<[u8; 4]>(), any::<prop::sample::Index>()).prop_map(move |(data, crop, odd, at)| {
+            let mut data: Vec<u32> = data.into_iter().map(u32::from_be_bytes).collect();
+            // half of the time one pixel breaks the pattern (outside a crop it must not matter)
+            if odd[0] & 1 == 1 && !data.is_empty() {
+                let i = at.index(data.len());
+                data[i] = u32::from_be_bytes(odd);
+            }
+            Case::Image {
+                height: h,
+                width: w,
+                data,
+                view: match crop {
+                    None => ImgView::Full,
+                    Some((r0, r1, c0, c1)) => ImgView::Crop { r0, r1, c0, c1 },
+                },
+            }
+        })
+    });
+    prop_oneof![3 => plain, 2 => strided, 2 => classed].boxed()
 }
 
 fn image_json_case() -> BoxedStrategy<Case> {
